@@ -829,6 +829,9 @@ func (in *Interp) lenOf(v Value) *smt.Term {
 		if a == nil {
 			return smt.BV(0, 64)
 		}
+		if c, ok := a.Obj.V.(*ChanV); ok && len(a.Path) == 0 {
+			return smt.BV(uint64(len(c.Buf)), 64)
+		}
 		if arr, ok := getPath(a.Obj.V, a.Path).(*ArrayV); ok {
 			return smt.BV(uint64(len(arr.E)), 64)
 		}
@@ -850,8 +853,21 @@ func (in *Interp) builtin(fr *frame, c *ssa.CallCommon, name string, args []Valu
 				return a.SB.Cap
 			}
 			return smt.BV(uint64(a.Cap), 64)
+		case *Ptr:
+			if a != nil {
+				if c, ok := a.Obj.V.(*ChanV); ok {
+					return smt.BV(uint64(c.Cap), 64)
+				}
+			}
 		}
 		return in.lenOf(args[0])
+	case "close":
+		ch := in.chanOf(args[0])
+		if ch.Closed {
+			in.goPanic("close of closed channel")
+		}
+		ch.Closed = true
+		return nil
 	case "append":
 		return in.appendOp(args[0], args[1], c.Args[0].Type())
 	case "copy":
